@@ -32,6 +32,46 @@ type User struct {
 	HomeSite int64
 	HomeSlug string
 	Home     Page `gorm:"foreignKey:HomeSite,HomeSlug;references:Site,Slug"`
+	// soft-delete targets of the other relation kinds
+	SPet    *SPet  `gorm:"foreignKey:UserID"` // has one, pointer field, soft-delete target
+	SToys   []SToy `gorm:"polymorphic:Owner"` // polymorphic has many, soft-delete target
+	SBossID *int64
+	SBoss   *SBoss // belongs to a soft-delete target
+	// many-to-many through a join model that has a soft-delete column (SetupJoinTable)
+	Clubs []Club `gorm:"many2many:memberships"`
+}
+
+type SPet struct {
+	ID        int64 `gorm:"primaryKey"`
+	Name      string
+	UserID    *int64
+	DeletedAt gorm.DeletedAt
+}
+
+type SToy struct {
+	ID        int64 `gorm:"primaryKey"`
+	Name      string
+	OwnerID   int64
+	OwnerType string
+	DeletedAt gorm.DeletedAt
+}
+
+type SBoss struct {
+	ID        int64 `gorm:"primaryKey"`
+	Name      string
+	DeletedAt gorm.DeletedAt
+}
+
+type Club struct {
+	ID   int64 `gorm:"primaryKey"`
+	Name string
+}
+
+// Membership: join model of User.Clubs; removing a link soft-deletes its row.
+type Membership struct {
+	UserID    int64 `gorm:"primaryKey"`
+	ClubID    int64 `gorm:"primaryKey"`
+	DeletedAt gorm.DeletedAt
 }
 
 // Medal: single string key chosen by the application.
@@ -71,6 +111,7 @@ type Team struct {
 	Name  string
 	Toys  []Toy  `gorm:"polymorphic:Owner"`
 	Badge *Badge `gorm:"polymorphic:Owner"`
+	SToys []SToy `gorm:"polymorphic:Owner"`
 }
 
 type Boss struct {
@@ -135,7 +176,7 @@ type Part struct {
 	Name string
 }
 
-var allModels = []interface{}{&User{}, &Team{}, &Boss{}, &Co{}, &Item{}, &SItem{}, &Pet{}, &Tag{}, &Toy{}, &Badge{}, &Org{}, &Part{}, &Medal{}, &Page{}, &Note{}, &Label{}}
+var allModels = []interface{}{&User{}, &Team{}, &Boss{}, &Co{}, &Item{}, &SItem{}, &Pet{}, &Tag{}, &Toy{}, &Badge{}, &Org{}, &Part{}, &Medal{}, &Page{}, &Note{}, &Label{}, &SPet{}, &SToy{}, &SBoss{}, &Club{}}
 
 // ---- relation specifications -------------------------------------------------
 
@@ -167,7 +208,8 @@ type relSpec struct {
 	store     int
 	single    bool // at most one link per owner
 	poly      bool
-	soft      bool
+	soft      bool // the target model has a soft-delete column
+	softJoin  bool // many-to-many through a join model with a soft-delete column: a removed link is a soft-deleted join row
 	composite bool // string keys whose naive "_" joins collide (signature class composite-key-collision)
 	assigned  bool // target keys are chosen by the application (a new record comes with its key)
 	ownerT    reflect.Type
@@ -183,6 +225,7 @@ type relSpec struct {
 	tables    []string // tables emptied per case
 	linkSQL   string   // -> (target key, owner key "table:key")
 	recSQL    string   // -> (target key, name, soft-deleted 0/1)
+	deadSQL   string   // softJoin: soft-deleted join rows -> (target key, owner key "table:key")
 }
 
 var idKey = []kf{{"ID", "id", true}}
@@ -252,6 +295,28 @@ var specs = []*relSpec{
 		tables:  []string{"orgs", "parts", "org_parts"},
 		linkSQL: "SELECT part_p1 || '" + ksep + "' || part_p2, 'orgs:' || org_k1 || '" + ksep + "' || org_k2 FROM org_parts",
 		recSQL:  "SELECT p1 || '" + ksep + "' || p2, name, 0 FROM parts"},
+	// ---- soft delete on the other relation kinds ----
+	{name: "has_one_soft", field: "SPet", store: fkTarget, single: true, soft: true, ownerT: reflect.TypeOf(User{}), targetT: reflect.TypeOf(SPet{}), ownerTab: "users", targetTab: "s_pets",
+		fks:     []kf{{"UserID", "user_id", true}},
+		tables:  []string{"users", "s_pets"},
+		linkSQL: "SELECT CAST(id AS TEXT), 'users:' || user_id FROM s_pets WHERE user_id IS NOT NULL AND deleted_at IS NULL",
+		recSQL:  "SELECT CAST(id AS TEXT), name, deleted_at IS NOT NULL FROM s_pets"},
+	{name: "poly_has_many_soft", field: "SToys", store: fkTarget, poly: true, soft: true, ownerT: reflect.TypeOf(User{}), targetT: reflect.TypeOf(SToy{}), ownerTab: "users", targetTab: "s_toys",
+		fks:     []kf{{"OwnerID", "owner_id", true}},
+		tables:  []string{"users", "teams", "s_toys"},
+		linkSQL: "SELECT CAST(id AS TEXT), COALESCE(owner_type,'') || ':' || owner_id FROM s_toys WHERE owner_id IS NOT NULL AND deleted_at IS NULL",
+		recSQL:  "SELECT CAST(id AS TEXT), name, deleted_at IS NOT NULL FROM s_toys"},
+	{name: "belongs_to_soft", field: "SBoss", store: fkOwner, single: true, soft: true, ownerT: reflect.TypeOf(User{}), targetT: reflect.TypeOf(SBoss{}), ownerTab: "users", targetTab: "s_bosses",
+		fks:     []kf{{"SBossID", "s_boss_id", true}},
+		tables:  []string{"users", "s_bosses"},
+		linkSQL: "SELECT CAST(s_boss_id AS TEXT), 'users:' || id FROM users WHERE s_boss_id IS NOT NULL",
+		recSQL:  "SELECT CAST(id AS TEXT), name, deleted_at IS NOT NULL FROM s_bosses"},
+	{name: "many2many_soft_join", field: "Clubs", store: joinRows, softJoin: true, ownerT: reflect.TypeOf(User{}), targetT: reflect.TypeOf(Club{}), ownerTab: "users", targetTab: "clubs",
+		jt: "memberships", jtO: []string{"user_id"}, jtT: []string{"club_id"},
+		tables:  []string{"users", "clubs", "memberships"},
+		linkSQL: "SELECT CAST(club_id AS TEXT), 'users:' || user_id FROM memberships WHERE deleted_at IS NULL",
+		deadSQL: "SELECT CAST(club_id AS TEXT), 'users:' || user_id FROM memberships WHERE deleted_at IS NOT NULL",
+		recSQL:  "SELECT CAST(id AS TEXT), name, 0 FROM clubs"},
 	// ---- key shapes: keys chosen by the application, multi-column keys with zero-valued parts ----
 	{name: "belongs_to_strkey", field: "Medal", store: fkOwner, single: true, assigned: true, ownerT: reflect.TypeOf(User{}), targetT: reflect.TypeOf(Medal{}), ownerTab: "users", targetTab: "medals",
 		tkeys: []kf{{"Code", "code", false}}, fks: []kf{{"MedalCode", "medal_code", false}},
@@ -465,10 +530,38 @@ func (s *relSpec) insLink(ok, tk string) {
 	must(err)
 }
 
+// insLeftover stores what an earlier removal leaves behind without being a link: for a
+// soft-delete target model a soft-deleted target row whose key column(s) still name the owner
+// (has one / has many / polymorphic), for a soft-delete join model a soft-deleted join row.
+func (s *relSpec) insLeftover(ok, tk, name string) {
+	const when = "2001-02-03 04:05:06"
+	var err error
+	if s.softJoin {
+		_, key := splitOwner(ok)
+		oa, ta := keyArgs(s.okeys, key), keyArgs(s.tkeys, tk)
+		_, err = H.SQL.Exec("INSERT INTO "+s.jt+"("+strings.Join(append(append([]string(nil), s.jtO...), s.jtT...), ",")+",deleted_at) VALUES ("+qmarks(len(oa)+len(ta)+1)+")", append(append(oa, ta...), when)...)
+	} else {
+		s.insTarget(tk, name)
+		s.insLink(ok, tk)
+		_, err = H.SQL.Exec("UPDATE "+s.targetTab+" SET deleted_at = ? WHERE "+eqAll(kcols(s.tkeys)), append([]interface{}{when}, keyArgs(s.tkeys, tk)...)...)
+	}
+	must(err)
+}
+
 // ---- raw-SQL read back -----------------------------------------------------------
 
-func (s *relSpec) readLinks() map[string]map[string]int {
-	rows, err := H.SQL.Query(s.linkSQL)
+func (s *relSpec) readLinks() map[string]map[string]int { return s.readPairs(s.linkSQL) }
+
+// readDead: the soft-deleted join rows (owner -> target -> rows) of a soft-delete join model.
+func (s *relSpec) readDead() map[string]map[string]int {
+	if s.deadSQL == "" {
+		return nil
+	}
+	return s.readPairs(s.deadSQL)
+}
+
+func (s *relSpec) readPairs(q string) map[string]map[string]int {
+	rows, err := H.SQL.Query(q)
 	must(err)
 	defer rows.Close()
 	out := map[string]map[string]int{}
